@@ -208,7 +208,25 @@ def multi_cells(chk: Check, mm: Mismatch, *, variant: str, hdrs: list, via: str,
         return 0
     steps, edges = [], 0
     evald = dropped = None
-    for t in range(T):
+    episodes = 2 if (not guards and rng.random() < 0.35) else 1
+    rep["episodes"] = episodes
+    for t in range(T * episodes):
+        if t == T:
+            # second episode: trainer and layers are cleared KEEPING the shapes of their recorders; what follows must
+            # be the documented pair sums of the second episode alone
+            try:
+                run.trainer.clear(keepshape=True)
+                for lay in ([run.biclique] if run.shared else run.layers):
+                    lay.clear()
+            except Exception as e:
+                mm.add(dict(sig, clause="Raised", where="clear", exc=type(e).__name__), dict(rep, error=repr(e)))
+                return edges
+            xs = [tuple(rng.randint(0, 1) for _ in range(T)) for _ in range(n)]
+            ys = [tuple(rng.randint(0, 1) for _ in range(T)) for _ in range(n)]
+            if shared:
+                ys = [ys[0]] * n
+            rep["pre2"], rep["post2"] = xs, ys
+        t0, t = t, t % T
         if guards and t == 1:
             evald, dropped = 1, n - 1
             run.layers[evald].cell.eval()
